@@ -35,6 +35,7 @@ type Obligation struct {
 // State maps storage names (heaps, locals, ghost variables) to the SMT term
 // holding their current value.  A missing key means "entry value".
 type State struct {
+	sym   *symState // non-nil: storages are bound variables (definition of an fpred)
 	m     map[string]string
 	epoch string          // "" = entry; otherwise the id of the last havoc-everything
 	held  map[string]bool // locks held on this path
@@ -113,6 +114,11 @@ type VC struct {
 	fnName   string
 	out      []string
 	declared map[string]bool
+	macros   map[string]bool
+	noEmit       int // >0: side facts are dropped (translating the body of an fpred)
+	fpreds       map[string]*fpredDef
+	keepHeaps    map[string]bool // storages surviving the havoc in progress
+	preserveSelf map[string]bool // storages the function under verification promises to preserve
 	declLog  []string
 	obls     []*Obligation
 	nfresh   int
@@ -204,6 +210,9 @@ func (vc *VC) emit(format string, args ...any) {
 // function under verification in which it was produced (-1: always kept).
 // Only assertions are ever sliced away; declarations and definitions stay.
 func (vc *VC) push(line string) {
+	if vc.noEmit > 0 && strings.HasPrefix(line, "(assert") {
+		return
+	}
 	tag := -1
 	if strings.HasPrefix(line, "(assert") && !vc.globalFact {
 		tag = vc.curTag()
@@ -282,6 +291,10 @@ func (vc *VC) define(hint, sort, term string) string {
 		vc.push(fmt.Sprintf("(assert (= %s %s))", name, term))
 	default:
 		vc.push(fmt.Sprintf("(define-fun %s () %s %s)", name, sort, term))
+		if vc.macros == nil {
+			vc.macros = map[string]bool{}
+		}
+		vc.macros[name] = true
 	}
 	return name
 }
@@ -419,7 +432,26 @@ func (vc *VC) entryVersion(name, sort string) string {
 	return c
 }
 
+// symState collects the storages read while the body of an fpred is
+// translated; each becomes a bound variable of the definitional axiom.
+type symState struct {
+	names, sorts, vars []string
+}
+
 func (vc *VC) getIn(st *State, name, sort string) string {
+	if st.sym != nil {
+		for i, n := range st.sym.names {
+			if n == name {
+				return st.sym.vars[i]
+			}
+		}
+		vc.recordSort(name, sort)
+		v := fmt.Sprintf("hv%d_%s", len(st.sym.names), sanitize(name))
+		st.sym.names = append(st.sym.names, name)
+		st.sym.sorts = append(st.sym.sorts, sort)
+		st.sym.vars = append(st.sym.vars, v)
+		return v
+	}
 	if t, ok := st.m[name]; ok {
 		return t
 	}
@@ -657,6 +689,13 @@ func (vc *VC) frameCheck(heap, idx string, pos token.Pos) {
 		return
 	}
 	if vc.modHeap && !strings.HasPrefix(heap, "G.") {
+		if vc.preserveSelf[heap] {
+			goal := "false"
+			if idx != "" {
+				goal = vc.isFresh(idx)
+			}
+			vc.oblige("frame", "preserves:"+heap, goal, pos, "write to "+heap+", which the contract promises to preserve (only freshly allocated objects may be written)")
+		}
 		return
 	}
 	var alts []string
@@ -703,9 +742,9 @@ func (vc *VC) strLit(s string) string {
 	vc.strLits[s] = name
 	vc.declared["strlit:"+s] = true
 	vc.declLog = append(vc.declLog, "strlit:"+s)
-	saveG := vc.globalFact
-	vc.globalFact = true
-	defer func() { vc.globalFact = saveG }()
+	saveG, saveN := vc.globalFact, vc.noEmit
+	vc.globalFact, vc.noEmit = true, 0
+	defer func() { vc.globalFact, vc.noEmit = saveG, saveN }()
 	vc.push(fmt.Sprintf("(declare-const %s Str) ; %q", name, truncate(s, 40)))
 	vc.push(fmt.Sprintf("(assert (= (slen %s) %d))", name, len(s)))
 	for _, o := range vc.strOrder {
